@@ -16,8 +16,7 @@ OBLIGATIONS = ["C43/P_%s.v" % n for n in (
     "gcdext_bezout", "gcdext_spec", "invert_spec", "powm_spec", "powm_spec_neg", "root_spec", "root_errors", "rootrem_spec", "sqrt_spec",
     "sqrtrem_spec", "perfect_square_spec", "fib_spec", "fib2_spec", "lucnum_spec", "lucnum2_spec", "fac_spec", "bin_spec", "binom_fact",
     "probab_prime_spec", "nextprime_partial", "perfect_power_partial", "jacobi_total", "jacobi_spec_relative", "kronecker_spec_relative",
-    "jacobi_definition_small", "kronecker_definition_small", "nonvacuous")]
-REFUTATIONS = ["C43/P_refuted.v"]     # compiled and reported, not counted as obligations (DESIGN.md section 12)
+    "jacobi_definition_small", "kronecker_definition_small", "refuted", "nonvacuous")]
 
 PRIMES_SMALL = [3, 5, 7, 11, 13, 17, 19, 23, 29, 31, 37, 41, 43, 47, 53, 59, 61, 67, 71, 73, 79, 83, 89, 97, 101, 103, 107, 109, 113,
                 127, 251, 257, 521, 1009, 4099, 7919, 65537, 99991]
